@@ -621,8 +621,33 @@ def gen_schedule(draw, nblocks=None, kinds=None):
     return blocks
 
 
-def render(blocks, unit="METRIC", final_kws=None):
-    out = [prelude(unit)]
+@st.composite
+def gen_static(draw):
+    """variations of the static sections that change what the EclipseState holds (output / report configuration,
+    run options); every variant is a valid deck for the fixed model"""
+    rs = []
+    for kw in draw(st.lists(st.sampled_from(["FMTOUT\n", "UNIFIN\n", "NOSIM\n", "MULTOUT\n", "FMTIN\n", "ENDSCALE\n /\n",
+                                             "MESSAGES\n 2* 10 /\n", "NUPCOL\n 5 /\n", "SAVE\n /\n"]), max_size=3, unique=True)):
+        rs.append(kw)
+    grid = []
+    for kw in draw(st.lists(st.sampled_from(["INIT\n", "GRIDFILE\n 0 1 /\n", "MINPV\n 0.001 /\n", "PINCH\n 0.01 /\n",
+                                             "MAPAXES\n 0 100 0 0 100 0 /\n", "NEWTRAN\n"]), max_size=3, unique=True)):
+        grid.append(kw)
+    sol = [EQUIL_TEXT]
+    if draw(st.booleans()):
+        mn = draw(st.lists(st.sampled_from(["FIP", "FIP=1", "FIP=2", "FIP=3", "FIPFOAM=2", "FIPPLY", "FIPSOL", "FIPSURF=2", "FIPHEAT",
+                                            "FIPTEMP", "FIPTR=2", "FIPRESV", "FIPVE", "PRES", "SOIL", "SWAT", "RESTART=2", "THPRES"]),
+                           min_size=1, max_size=5, unique=True))
+        sol.append("RPTSOL\n %s /\n" % " ".join("'%s'" % m for m in mn))
+    if draw(st.booleans()):
+        mn = draw(st.lists(st.sampled_from(["BASIC=2", "BASIC=3", "FREQ=2", "PRES", "DEN", "KRO", "RSSAT", "ALLPROPS", "FLOWS", "VISC"]),
+                           min_size=1, max_size=4, unique=True))
+        sol.append("RPTRST\n %s /\n" % " ".join(mn))
+    return {"runspec_extra": "".join(rs), "grid_extra": "".join(grid), "solution": "".join(sol)}
+
+
+def render(blocks, unit="METRIC", final_kws=None, static=None):
+    out = [prelude(unit, **(static or {}))]
     for b in blocks:
         out.extend(b["kws"])
         out.append(b["time"])
